@@ -384,10 +384,10 @@ PROPS = {
     },
     "C14": {
         "lean_modules": ["Dbg.Props.C14"],
-        "theorems": ["DnaStr.C14_block_set", "DnaStr.C14_block_get", "DnaStr.C14_block_order", "DnaStr.C14_blank"],
-        "partial": ["history theorem over push/extend/push_bytes/set/clear/blank/from_* (invariant: block count = ceil(len/32), padding zero; "
-                    "bases = those of the plain vector), repr_inj, cmp_lex, renderers, PackedDnaStringSet: modelled bit for bit and "
-                    "executed against the crate on every run, theorems not yet written"],
+        "theorems": ["DnaStr.C14_history", "DnaStr.C14_step", "DnaStr.C14_observers", "DnaStr.C14_repr_canonical", "DnaStr.C14_cmp_lex",
+                     "DnaStr.C14_routes_agree", "DnaStr.C14_ndiffs", "DnaStr.C14_pushBytes_guard", "DnaStr.C14_packed_set",
+                     "DnaStr.C14_block_set", "DnaStr.C14_block_get", "DnaStr.C14_block_order", "DnaStr.C14_blank"],
+        "partial": [],
         "n_quick": 8000, "n_thorough": 600000,
         "nontrivial": lambda toks, impl: impl != "panic" and (toks[1] == "pset" or toks[2].count(";") >= 2), "tags": _c14_tags,
         "rule": "requests `hist <ops> <other>`: 1-25 operations from push, extend (lengths aimed at len%32 in {0,1,31}), push_bytes, set_mut, "
@@ -397,7 +397,9 @@ PROPS = {
                 "same-length for ndiffs); `pset <seqs>`: PackedDnaStringSet add/get. Non-trivial = at least 3 operations.",
         "trusted_base": ["#[derive(PartialEq, Eq, Ord, Hash)] on DnaString are the structural functions of (storage: Vec<u64>, len); "
                          "Vec<u64> order is lexicographic with a proper prefix first"],
-        "assumptions": ["set_mut index < len, bases < 4"],
+        "assumptions": ["set_mut index < len, bases < 4, push_bytes within its bytes (guard theorem covers the other side), "
+                        "PackedDnaStringSet sequences shorter than 2^32 bases (the width of the stored length)",
+                        "from_acgt_bytes / from_dna_string / from_dna_only_string are the C16 conversions followed by the `extend`/block push proved here"],
     },
     "C15": {
         "lean_modules": ["Dbg.Props.C15"],
